@@ -73,6 +73,15 @@ def atan2_(x_num, y_num):
     return math.atan2(y_num, x_num)
 
 
+def _multiple(number, significance, rounder):
+    """significance * rounder(number / significance), calculated in decimal
+
+    In binary floating point 0.3 / 0.1 is 2.9999999999999996.
+    """
+    significance = Decimal(repr(significance))
+    return float(significance * rounder(Decimal(repr(number)) / significance))
+
+
 @excel_math_func
 def ceiling(number, significance):
     # Excel reference: https://support.microsoft.com/en-us/office/
@@ -84,9 +93,9 @@ def ceiling(number, significance):
         return 0
 
     if number < 0 < significance:
-        return significance * int(number / significance)
+        return _multiple(number, significance, math.trunc)
     else:
-        return significance * math.ceil(number / significance)
+        return _multiple(number, significance, math.ceil)
 
 
 @excel_math_func
@@ -99,7 +108,7 @@ def ceiling_math(number, significance=1, mode=0):
     significance = abs(significance)
     if mode and number < 0:
         significance = -significance
-    return significance * math.ceil(number / significance)
+    return _multiple(number, significance, math.ceil)
 
 
 @excel_math_func
@@ -110,7 +119,7 @@ def ceiling_precise(number, significance=1):
         return 0
 
     significance = abs(significance)
-    return significance * math.ceil(number / significance)
+    return _multiple(number, significance, math.ceil)
 
 
 def conditional_format_ids(*args):
@@ -169,7 +178,7 @@ def floor(number, significance):
     if significance == 0:
         return DIV0
 
-    return significance * math.floor(number / significance)
+    return _multiple(number, significance, math.floor)
 
 
 @excel_math_func
@@ -182,7 +191,7 @@ def floor_math(number, significance=1, mode=0):
     significance = abs(significance)
     if mode and number < 0:
         significance = -significance
-    return significance * math.floor(number / significance)
+    return _multiple(number, significance, math.floor)
 
 
 @excel_math_func
@@ -193,7 +202,7 @@ def floor_precise(number, significance=1):
         return 0
 
     significance = abs(significance)
-    return significance * math.floor(number / significance)
+    return _multiple(number, significance, math.floor)
 
 
 @excel_math_func
